@@ -316,6 +316,12 @@ class C03Counts(Monitor):
     def on_gsc(self, tree, verdict, kind, deme):
         self._check(tree, kind, deme)
 
+    def on_lsc(self, deme, verdict):
+        # local stop conditions are stop conditions too: same conservation law whenever one is consulted
+        if self.ctx.tree is not None and not self.ctx.scope[:-1]:
+            self.cov("lsc_consultations_checked")
+            self._check(self.ctx.tree, "lsc")
+
     def _final(self, tree):
         ctx = self.ctx
         if tree is not None:
